@@ -104,6 +104,22 @@ func driveZoom(t *Tracer, r Rng, n int) {
 			evChangeZoomExt(t, w, []ID{id}, h, v)
 			continue
 		}
+		if i%500 == 13 { // a long list (hundreds of voxels of one zoom pair), kept or coarsened by one level
+			hD, vD := r.In(5, 9), r.In(5, 9)
+			w := r.randomWindow(hD, vD, false)
+			var ids []ID
+			for k := r.In(300, 1200); k > 0; k-- {
+				ids = append(ids, r.randomIDAt(w, hD, vD))
+			}
+			evChangeZoomExt(t, w, ids, hD-r.In(0, 1), vD-r.In(0, 1))
+			sw := r.randomWindow(hD, hD, true)
+			ids = ids[:0]
+			for k := r.In(300, 1200); k > 0; k-- {
+				ids = append(ids, r.randomIDAt(sw, hD, hD))
+			}
+			evChangeZoomSp(t, sw, ids, hD-r.In(0, 1))
+			continue
+		}
 		switch r.Intn(10) {
 		case 0, 1, 2, 3, 4:
 			hD, vD := r.In(0, 8), r.In(0, 8)
